@@ -46,12 +46,17 @@ EXPECTED_ROLES = {
 }
 
 
-def const_names(atoms):
+def const_names(atoms, free_consts=None):
     out = set()
     for a in atoms:
         if a[0] in ('len', 'narrow'):
             continue
         if a[0] == 'a':
+            v = (free_consts or {}).get(a[1])
+            if v is not None and v.startswith('b"'):
+                if v != 'b""':
+                    out.add('c:' + v)       # a module-level constant stands for its octets, like a literal
+                continue
             out.add(a[1].split('::')[-1])
         elif a[0] == 'c' and a[1].startswith('b"') and a[1] != 'b""':
             out.add('c:' + a[1])
@@ -67,7 +72,7 @@ def role_table(eng, entry_path):
             if tgt in ROLE_SITES:
                 role, ai = ROLE_SITES[tgt]
                 at = fr.lift(fr.fd.read_op(t['args'][ai]))
-                cs = const_names(at)
+                cs = const_names(at, eng.prog.free_consts())
                 res.setdefault(role, set()).add(cs)
                 where.setdefault((role, cs), []).append('%s L%s' % (fr.path.split('::')[-1], t['line']))
     return res, where
